@@ -512,3 +512,128 @@ def all_families(ctx, P, S=None):
     argname(ctx, P)
     row_forwarding(ctx, P)
     return S
+
+
+# =============================================================================================
+# collection level
+MEMBER = {"individual": "individuals", "node": "nodes", "edge": "edges", "migration": "migrations", "site": "sites",
+          "mutation": "mutations", "population": "populations", "provenance": "provenances"}
+
+
+def collection(ctx, P, rule="SCHEMA-COLLECTION"):
+    ctx.rule(rule, "tsk_table_collection_equals/_copy/_dumpf/_loadf_inited/_clear handle every table member through the "
+                   "like-named per-table call on the same member of both operands, plus sequence_length, time_units, metadata, "
+                   "metadata_schema, indexes and the reference sequence; comparison options gate exactly the documented parts")
+    members = {f: ty for f, ty, _ in P.structs.get("tsk_table_collection_t", [])}
+    ctx.need(all(m in members for m in MEMBER.values()), "table members of tsk_table_collection_t")
+    # ---- equals
+    fn = _fn(P, ctx, "tsk_table_collection_equals")
+    F = Facts(P, fn)
+    where = F.loc(fn.node)
+    for t, mem in MEMBER.items():
+        hits = F.calls_to("tsk_%s_table_equals" % t)
+        ok = any(a[:2] == ["&self->" + mem, "&other->" + mem] and a[2] == "options" for a, n in hits)
+        node = hits[0][1] if hits else None
+        conds = [F.tu.src(i.kids[0]) for i, br in F.enclosing_ifs(node)] if node is not None else []
+        want = ["TSK_CMP_IGNORE_TABLES"] + (["TSK_CMP_IGNORE_PROVENANCE"] if t == "provenance" else [])
+        okc = all(any(w in c for c in conds) for w in want) and len(conds) == len(want)
+        ctx.ob(rule, "equals|%s" % mem, ok and okc, F.loc(node) if node is not None else where,
+               "tsk_%s_table_equals(&self->%s, &other->%s, options) under %s; found args %s under %s"
+               % (t, mem, mem, want, [a for a, n in hits], conds))
+    cmps = {(a[0], a[1]): (factors(n.kids[3]), n) for a, n in F.calls_to("tsk_memcmp") if len(a) == 3}
+    for f_, lenf, cond in (("time_units", "time_units_length", None), ("metadata", "metadata_length", "TSK_CMP_IGNORE_TS_METADATA"),
+                           ("metadata_schema", "metadata_schema_length", "TSK_CMP_IGNORE_TS_METADATA")):
+        ent = cmps.get(("self->" + f_, "other->" + f_))
+        ok = ent is not None and ("self->" + lenf) in ent[0]
+        if ok:
+            conds = [F.tu.src(i.kids[0]) for i, br in F.enclosing_ifs(ent[1])]
+            ok = (not conds) if cond is None else (len(conds) == 1 and cond in conds[0])
+        ctx.ob(rule, "equals|%s" % f_, ok, where, "memcmp(self->%s, other->%s, self->%s …) %s" % (f_, f_, lenf, "unconditionally" if cond is None else "under " + cond))
+    src = F.tu.src(fn.body)
+    ctx.ob(rule, "equals|sequence_length", "(self->sequence_length == other->sequence_length)" in xstr(fn.body.kids[0].kids[0].kids[-1], F.al)
+           if fn.body.kids and fn.body.kids[0].k == "DeclStmt" else "self->sequence_length == other->sequence_length" in src,
+           where, "sequence_length compared")
+    hits = F.calls_to("tsk_reference_sequence_equals")
+    ok = any(a[:2] == ["&self->reference_sequence", "&other->reference_sequence"] for a, n in hits)
+    if ok:
+        conds = [F.tu.src(i.kids[0]) for i, br in F.enclosing_ifs(hits[0][1])]
+        ok = len(conds) == 1 and "TSK_CMP_IGNORE_REFERENCE_SEQUENCE" in conds[0]
+    ctx.ob(rule, "equals|reference_sequence", ok, where, "reference sequence compared under TSK_CMP_IGNORE_REFERENCE_SEQUENCE")
+    # ---- copy
+    fn = _fn(P, ctx, "tsk_table_collection_copy")
+    F = Facts(P, fn)
+    where = F.loc(fn.node)
+    for t, mem in MEMBER.items():
+        hits = F.calls_to("tsk_%s_table_copy" % t)
+        ok = any(a[:2] == ["&self->" + mem, "&dest->" + mem] for a, n in hits)
+        okc = ok and not F.enclosing_ifs(hits[0][1])
+        ctx.ob(rule, "copy|%s" % mem, ok and okc, where, "tsk_%s_table_copy(&self->%s, &dest->%s, …) unconditionally" % (t, mem, mem))
+    for setter, a1, a2 in (("tsk_table_collection_set_time_units", "self->time_units", "self->time_units_length"),
+                           ("tsk_table_collection_set_metadata", "self->metadata", "self->metadata_length"),
+                           ("tsk_table_collection_set_metadata_schema", "self->metadata_schema", "self->metadata_schema_length")):
+        hits = F.calls_to(setter)
+        ok = any(a == ["dest", a1, a2] for a, n in hits) and not F.enclosing_ifs(hits[0][1])
+        ctx.ob(rule, "copy|%s" % setter.replace("tsk_table_collection_set_", ""), ok, where, "%s(dest, %s, %s) unconditionally" % (setter, a1, a2))
+    ctx.ob(rule, "copy|sequence_length", F.has_assign("dest->sequence_length", "self->sequence_length") is not None, where, "sequence_length copied")
+    hits = F.calls_to("tsk_reference_sequence_copy")
+    ctx.ob(rule, "copy|reference_sequence", any(a[:2] == ["&self->reference_sequence", "&dest->reference_sequence"] for a, n in hits), where, "reference sequence copied")
+    hits = F.calls_to("tsk_table_collection_set_indexes")
+    ctx.ob(rule, "copy|indexes", any(a == ["dest", "self->indexes.edge_insertion_order", "self->indexes.edge_removal_order"] for a, n in hits), where,
+           "indexes copied (insertion, removal in order)")
+    # ---- dumpf / loadf_inited: per-table calls on the like-named member
+    for fname, suffix in (("tsk_table_collection_dumpf", "dump"), ("tsk_table_collection_loadf_inited", "load")):
+        fn = P.func(fname, "tables")
+        if fn is None and suffix == "load":
+            fn = P.func("tsk_table_collection_load_tables", "tables")
+        ctx.need(fn is not None, fname)
+        F = Facts(P, fn)
+        # load may delegate the table part to a helper
+        allcalls = list(F.calls)
+        for c_, a_, n_ in list(F.calls):
+            if c_ and c_.startswith("tsk_table_collection_") and c_ not in ("tsk_table_collection_read_format_data",):
+                g = P.func(c_, "tables")
+                if g is not None and suffix == "load" and "load" in c_:
+                    allcalls += Facts(P, g).calls
+        for t, mem in MEMBER.items():
+            ok = any(c_ == "tsk_%s_table_%s" % (t, suffix) and a_ and a_[0] == "&self->" + mem for c_, a_, n_ in allcalls)
+            ctx.ob(rule, "%s|%s" % (suffix, mem), ok, F.loc(fn.node), "tsk_%s_table_%s(&self->%s, store, …)" % (t, suffix, mem))
+    # format columns written
+    fn = _fn(P, ctx, "tsk_table_collection_dumpf")
+    F = Facts(P, fn)
+    rows = {_s(r[0]): r for r, n, v in _initlist_rows(F, fn, "write_table_col_t") if r and r[0].startswith('"')}
+    for k, ptr, ln in (("time_units", "self->time_units", "self->time_units_length"), ("metadata", "self->metadata", "self->metadata_length"),
+                       ("metadata_schema", "self->metadata_schema", "self->metadata_schema_length"), ("sequence_length", "&self->sequence_length", "1")):
+        r = rows.get(k)
+        ctx.ob(rule, "dump|%s" % k, r is not None and r[1] == ptr and r[2] == ln, F.loc(fn.node), "{\"%s\", %s, %s}; found %s" % (k, ptr, ln, r))
+    for k in ("format/name", "format/version", "uuid"):
+        ctx.ob(rule, "dump|%s" % k, k in rows, F.loc(fn.node), "%s written" % k)
+
+
+def read_format(ctx, P, rule="SCHEMA-READFORMAT"):
+    ctx.rule(rule, "tsk_table_collection_read_format_data applies every top-level item it reads: the setter for an optional item "
+                   "is guarded only by the item's presence test (kastore_containss on the same key), never by its value or length; "
+                   "the key read, the variable and the setter agree")
+    fn = _fn(P, ctx, "tsk_table_collection_read_format_data")
+    F = Facts(P, fn)
+    where = F.loc(fn.node)
+    for key, setter in (("time_units", "tsk_table_collection_set_time_units"), ("metadata", "tsk_table_collection_takeset_metadata"),
+                        ("metadata_schema", "tsk_table_collection_set_metadata_schema")):
+        hits = F.calls_to(setter)
+        if not hits:
+            ctx.ob(rule, key + "|setter", False, where, "%s is never called: `%s` read from the file is dropped" % (setter, key))
+            continue
+        a, node = hits[0]
+        ok = a[0] == "self" and a[1] == key and a[2] == key + "_length"
+        ctx.ob(rule, key + "|args", ok, F.loc(node), "%s(self, %s, %s_length); found %s" % (setter, key, key, a))
+        conds = [xstr(i.kids[0], F.al) for i, br in F.enclosing_ifs(node)]
+        okc = all(c in ("(ret == 1)", "(1 == ret)") for c in conds) and len(conds) <= 1
+        ctx.ob(rule, key + "|guard", okc, F.loc(node), "guarded only by presence (ret == 1); found %s" % conds)
+        gets = [aa for c_, aa, n_ in F.calls if c_ and c_.startswith("kastore_gets") and aa and aa[1] == '"%s"' % key]
+        okg = any(aa[2] == "&" + key and aa[3] in ("&%s_length" % key,) for aa in gets)
+        ctx.ob(rule, key + "|gets", okg, where, "kastore_gets(\"%s\", &%s, &%s_length); found %s" % (key, key, key, gets))
+        cont = [aa for aa, n_ in F.calls_to("kastore_containss") if aa[1] == '"%s"' % key]
+        ctx.ob(rule, key + "|contains", bool(cont), where, "presence of \"%s\" tested" % key)
+    n = F.has_assign("self->sequence_length", "L[0]")
+    ctx.ob(rule, "sequence_length|assign", n is not None, where, "self->sequence_length = L[0]")
+    hits = F.calls_to("tsk_table_collection_set_file_uuid")
+    ctx.ob(rule, "uuid|setter", any(a == ["self", "uuid"] for a, n_ in hits), where, "file uuid applied")
